@@ -325,7 +325,9 @@ func (smf *SMFailed) UnmarshalXML(d *xml.Decoder, start xml.StartElement) error 
 				err = d.DecodeElement(&xnwf, &tt)
 				smf.StreamErrorGroup = &xnwf
 			default:
-				return errors.New("error is unknown")
+				// Not a stream error condition (XEP-0198 uses stanza error conditions such as <item-not-found/>
+				// here): skip the element, the resumption or enabling has failed anyway
+				err = d.Skip()
 			}
 			if err != nil {
 				return err
